@@ -351,17 +351,26 @@ def check_group_writing(ctx, rng):
         # the caller's options say delimited=False; grouped_stream_to_file decides how the frames reach the file.
         # Whatever it does, the file must still hold one frame per non-empty group (a refusal would be fine too).
         cfg["delimited"] = False
+    binds = []
+    if rng.random() < .3:
+        # every graph/dataset of the sequence binds the same namespaces, declarations on (each sink declares them again)
+        cfg["ns"] = True
+        binds = workloads.bindings(rng, None, k=rng.randint(1, 3))
+        n_, p_, d_ = cfg["preset"]
+        need = gen.need_of(allst or [(("iri", "a"),) * arity], cfg["physical"], p_ > 0, [("ns", a, b) for a, b in binds])
+        cfg["preset"] = (max(n_, need[1], 8), max(p_, need[0]) if p_ else 0, d_)
+        ctx.observe("group-sequences-with-declarations")
     options = pj.make_options(cfg, flow=flow_obj)
     out = io.BytesIO()
     try:
         if integ == "generic":
-            sinks = (pj.generic_sink_of(g) for g in groups)
+            sinks = (pj.generic_sink_of(g, binds) for g in groups)
             if via == "file":
                 gser.grouped_stream_to_file(sinks, out, options=options)
             else:
                 pj.write_frames(gser.grouped_stream_to_frames(sinks, options=options), out, True)
         else:
-            stores = (pj.rdflib_store_of(g, dataset=arity == 4) for g in groups)
+            stores = (pj.rdflib_store_of(g, binds, dataset=arity == 4) for g in groups)
             if via == "file":
                 rser.grouped_stream_to_file(stores, out, options=options)
             else:
@@ -462,7 +471,8 @@ def judge_groups(integ: str, data: bytes, groups: list):
     for k, (f, g) in enumerate(zip(carrying, nonempty)):
         if (f != g) if ordered else (set(f) != set(g)):
             return {"clause": "frame-content", "summary": f"frame #{k} with statements does not hold group #{k}"}
-    extra = [i for i, f in enumerate(per_frame) if not f]
+    # (a frame that carries the namespace declarations of a graph without statements is that graph's frame, not a stray one)
+    extra = [i for i, f in enumerate(per_frame) if not f and not any(e[0] == "ns" for e in ref.per_frame[i])]
     if any(i != 0 for i in extra):
         return {"clause": "statement-less-frame", "summary": f"statement-less frames at positions {extra} (only an options-only first frame is tolerated)"}
     try:
